@@ -28,6 +28,7 @@ import (
 	"sort"
 	"strings"
 
+	"github.com/btcsuite/btcd/btcec"
 	"github.com/btcsuite/btcutil/base58"
 	"github.com/golang/protobuf/proto"
 	_ "github.com/google/tink/go/aead" // registers the AES-GCM key manager used for the DEK
@@ -69,15 +70,24 @@ var ktypes = []ktInfo{
 	{"ChaCha20Poly1305", false, "", ""}, {"XChaCha20Poly1305", false, "", ""}, {"HMACSHA256Tag256", false, "", ""},
 	{"ECDSAP256DER", true, "ec", "P-256"}, {"ECDSAP384DER", true, "ec", "P-384"}, {"ECDSAP521DER", true, "ec", "P-521"},
 	{"ECDSAP256IEEEP1363", true, "ec", "P-256"}, {"ECDSAP384IEEEP1363", true, "ec", "P-384"},
-	{"ECDSAP521IEEEP1363", true, "ec", "P-521"}, {"ECDSASecp256k1IEEEP1363", true, "", ""},
+	{"ECDSAP521IEEEP1363", true, "ec", "P-521"}, {"ECDSASecp256k1IEEEP1363", true, "ec", "SECP256K1"},
 	{"ED25519", true, "ed", ""}, {"NISTP256ECDHKW", true, "ec", "P-256"}, {"NISTP384ECDHKW", true, "ec", "P-384"},
 	{"NISTP521ECDHKW", true, "ec", "P-521"}, {"X25519ECDHKW", true, "", ""}, {"BLS12381G2", true, "", ""},
 }
+
+// import-only type (no Create, no export, no Rotate): sampled by its own sweep
+var extraTypes = []ktInfo{{"ECDSASecp256k1DER", true, "ec", "SECP256K1"}}
 
 func ktByName(n string) *ktInfo {
 	for i := range ktypes {
 		if ktypes[i].name == n {
 			return &ktypes[i]
+		}
+	}
+
+	for i := range extraTypes {
+		if extraTypes[i].name == n {
+			return &extraTypes[i]
 		}
 	}
 
@@ -681,6 +691,8 @@ type Op struct {
 	// importbad: which defect the key handed to ImportPrivateKey has: curve (a valid key of another curve than the key
 	// type's), offcurve, nild, nilx, kind (Ed25519 key for an EC type and vice versa), nil
 	Bad string `json:"bad,omitempty"`
+	// RotKT: rotate with this key type instead of the keyset's own (outside the model: direct oracles only)
+	RotKT string `json:"rotkt,omitempty"`
 }
 
 // Obs is what happened.
@@ -706,6 +718,8 @@ func genImportKey(kt *ktInfo, r *hx.Rng) (interface{}, [][]byte) {
 			c = elliptic.P256()
 		case "P-384":
 			c = elliptic.P384()
+		case "SECP256K1":
+			c = btcec.S256()
 		default:
 			c = elliptic.P521()
 		}
@@ -922,6 +936,9 @@ func (w *world) apply(pos int, op Op, r *hx.Rng) Obs {
 	case "rotate":
 		if op.Ref < len(w.issued) {
 			kt = w.issued[op.Ref].kt
+			if op.RotKT != "" {
+				kt = op.RotKT
+			}
 			id, kh, err = w.kms.Rotate(kmsapi.KeyType(kt), w.issued[op.Ref].id)
 		} else {
 			err = fmt.Errorf("no such ref")
@@ -1357,6 +1374,12 @@ func runHistory(kind, cfg string, ops []Op, r *hx.Rng, tr *hx.Trace) {
 	rec.Coq = fmt.Sprintf("{| c_cfg := %s; c_ops := %s; c_obs := %s; c_protected := %s; c_wrong_master_reads := %s; c_wrong_pass_unlocks := %s; c_nblobs := %d%%nat; c_events := %s |}",
 		cfgT, hx.CoqList(coqOps), hx.CoqList(coqObs), protT, hx.CoqBool(wrongReads), hx.CoqBool(wrongUnlocks),
 		len(w.blobEvents), hx.CoqList(append(append([]string{}, w.blobEvents...), w.writeEvents...)))
+	for _, op := range ops {
+		if op.RotKT != "" {
+			rec.Coq = "" // Rotate with another key type: stored-form oracle, byte scan and wrong-lock probes only
+		}
+	}
+
 	rec.Observed = map[string]interface{}{"ops": obs, "secrets_tracked": len(w.secrets), "haystacks": len(w.hay)}
 	rec.Class = cfg + ":" + strings.Join(class, ",")
 	rec.Trivial = !nontrivl && nWrites < 2
@@ -1547,6 +1570,24 @@ func main() {
 				runHistory("importbad", cfg, []Op{{Kind: "create", KT: kt.name}, {Kind: "importbad", KT: kt.name, Bad: bad},
 					{Kind: "import", KT: kt.name}, {Kind: "rotate", Ref: 1}, {Kind: "get", Ref: 1}}, next(), tr)
 			}
+		}
+	}
+
+	// import-only secp256k1 keys (DER signatures) beside the exportable kind; Rotate with another key type than the
+	// keyset's (outside the model): whatever is written must be an envelope under the master key, nothing may leak
+	for i, cfg := range cfgs {
+		runHistory("secp256k1", cfg, []Op{{Kind: "import", KT: "ECDSASecp256k1DER"}, {Kind: "import", KT: "ECDSASecp256k1IEEEP1363"},
+			{Kind: "import", KT: "ECDSASecp256k1DER", UID: true}, {Kind: "get", Ref: 0}, {Kind: "rotate", Ref: 1}, {Kind: "export", Ref: 1}}, next(), tr)
+
+		mix := []string{"AES256GCM", "HMACSHA256Tag256", "ED25519", "ECDSAP256DER", "NISTP256ECDHKW", "X25519ECDHKW", "BLS12381G2"}
+		for a := range mix {
+			b := (a + 1 + i) % len(mix)
+			if a == b {
+				continue
+			}
+
+			runHistory("rotate-mismatch", cfg, []Op{{Kind: "create", KT: mix[a]}, {Kind: "rotate", Ref: 0, RotKT: mix[b]},
+				{Kind: "get", Ref: 0}, {Kind: "get", Ref: 1}, {Kind: "create", KT: mix[b]}}, next(), tr)
 		}
 	}
 
